@@ -160,6 +160,7 @@ class W(convo.World):
         d = acc.keys or {"pre": []}
         d.update(identity=up["identity"], registration=up["registration"], type=b"\x05", skey=up["skey"])
         for kid, kv in ids.items():
+            d["pre"] = [x for x in d["pre"] if x[0] != kid]
             d["pre"].append((kid, kv))
         acc.keys = d
         self.server_close(self.a)
@@ -325,6 +326,7 @@ class W(convo.World):
                 d = acc.keys or {"pre": []}
                 d.update(identity=up["identity"], registration=up["registration"], type=b"\x05", skey=up["skey"])
                 for kid, kv in up["ids"].items():
+                    d["pre"] = [x for x in d["pre"] if x[0] != kid]
                     d["pre"].append((kid, kv))
                 acc.keys = d
                 continue
@@ -412,9 +414,9 @@ class W(convo.World):
                     self.p.post_op(op)
                     if not self.settle():
                         return
-                    if len(self.handouts) > nh:
-                        kid = int.from_bytes(self.handouts[-1][1], "big")
-                        self.pending_firsts.append((kid, self.pending_body))
+                    for hh in self.handouts[nh:]:
+                        # (more than one when the first copy could not be decrypted and the peer fetched keys again)
+                        self.pending_firsts.append((int.from_bytes(hh[1], "big"), self.pending_body))
             elif ev == "replay_first":
                 if self.first_msgs and a.alive and a.cid is not None:
                     n, body = self.first_msgs[-1]
